@@ -24,7 +24,7 @@ pub fn unbig(v: &Value) -> i128 {
     let s = v["s"].as_i64().expect("big.s") as i128;
     let mut m: i128 = 0;
     for x in v["l"].as_array().expect("big.l").iter().rev() {
-        m = m * 10000 + x.as_i64().unwrap() as i128;
+        m = m.checked_mul(10000).and_then(|v| v.checked_add(x.as_i64().unwrap() as i128)).expect("HARNESS big does not fit i128");
     }
     s * m
 }
